@@ -83,10 +83,11 @@ Theorem C07_deliver_must : forall s tr p x sub fs e n,
 Proof. exact deliver_must. Qed.
 Print Assumptions C07_deliver_must.
 
-(** "the REQ ended": when the EOSE is handed to the client the subscription
-    is established with the filters of that REQ *)
+(** "the REQ ended": when the EOSE is handed to the client (and the client
+    has not disconnected in the meantime) the subscription is established with
+    the filters of that REQ *)
 Theorem C07_req_end_established : forall buf s x sub,
-  reachable buf s -> c_pc (r_cs s x) = [IEose sub] ->
+  reachable buf s -> c_pc (r_cs s x) = [IEose sub] -> ~ In x (r_cancel s) ->
   exists fs ops0,
     c_ops (r_cs s x) = ops0 ++ [OReq sub fs] /\
     established (step s (LRun x)) x sub fs /\
@@ -185,17 +186,21 @@ Theorem C07_queue_bounded : forall buf s x, reachable buf s -> (length (c_q (r_c
 Proof. exact queue_bounded. Qed.
 
 (** REPLIES: the replies a connection has received, followed by those still
-    pending in its program, are exactly the replies of its accepted
-    operations in order: one EOSE per REQ, one OK with the event's id per
-    EVENT, one COUNT per COUNT. *)
+    pending in its program, are the replies of its accepted operations in
+    order: one EOSE per REQ, one OK with the event's id per EVENT, one COUNT
+    per COUNT — except that a session whose context was cancelled while an
+    operation was in flight may have given up that one (last) reply [sk]. *)
 Theorem C07_replies_exact : forall buf s x,
   reachable buf s ->
-  replies (c_out (r_cs s x)) ++ pending_replies (c_pc (r_cs s x)) = expected_replies (c_ops (r_cs s x)).
+  exists sk,
+    replies (c_out (r_cs s x)) ++ pending_replies (c_pc (r_cs s x)) ++ sk = expected_replies (c_ops (r_cs s x)) /\
+    (sk = [] \/ (pending_replies (c_pc (r_cs s x)) = [] /\ (In x (r_cancel s) \/ c_dead (r_cs s x) = true))).
 Proof. exact replies_prefix. Qed.
 Print Assumptions C07_replies_exact.
 
+(** for a live session nothing is given up *)
 Theorem C07_replies_exact_idle : forall buf s x,
-  reachable buf s -> c_pc (r_cs s x) = [] ->
+  reachable buf s -> c_pc (r_cs s x) = [] -> c_dead (r_cs s x) = false -> ~ In x (r_cancel s) ->
   replies (c_out (r_cs s x)) = expected_replies (c_ops (r_cs s x)).
 Proof. exact replies_exact. Qed.
 
@@ -262,12 +267,13 @@ Example C07_ex_must_hypotheses :
   pub_done (run ex_s0 ex_tr) 0%nat 0%nat /\
   reachable 1%nat ex_s0.
 Proof.
-  repeat split.
-  - repeat constructor.
+  split; [|split; [|split; [|split; [|split; [|split]]]]].
+  - split; [reflexivity|]. split; [split; [repeat constructor | reflexivity]|]. vm_compute. intros [].
   - eexists. reflexivity.
+  - reflexivity.
   - repeat constructor.
-  - vm_compute. lia.
-  - vm_compute. repeat constructor.
+  - reflexivity.
+  - split; [vm_compute; lia | vm_compute; repeat constructor].
   - unfold ex_s0. apply reachable_run. constructor.
 Qed.
 
@@ -313,6 +319,78 @@ Example C07_ex_new_connection_waits :
   let s := run ex_s0 [LRun c0; LOp c2 (OReq ex_a [empty_filter]); LRun c2; LRun c2] in
   c_pc (r_cs s 2%nat) = [IRegAdd; ISubAdd ex_a [empty_filter]; IEose ex_a] /\ enabled s (LRun c2) = false /\
   enabled s (LRun c0) = true.
+Proof. vm_compute. repeat split. Qed.
+
+(* ------------------------------------------------------------------ *)
+(** DISCONNECT AT ANY POINT.  A disconnect label takes effect at once for an
+    idle connection (program [IUnsubAll], session dead).  For a connection
+    whose recv loop is at work it cancels the session's context
+    ([r_cancel]): router.recv is not interruptible, so the program in flight
+    runs on — a cancelled publisher still visits every connection, a
+    cancelled REQ still subscribes —, only the reply may be given up
+    ([LSkip]: sendServerMsgCtx takes the ctx.Done() case); when the program is
+    over the loop notices the cancellation and ServeNostr returns: from there
+    on it is the disconnect of an idle connection, the deferred
+    UnsubscribeAll removes the registry entry and what is still queued is
+    dropped.  All theorems above quantify over these schedules as well. *)
+Theorem C07_cancel_noticed : forall s c,
+  c_pc (r_cs s c) = [] -> In c (r_cancel s) ->
+  let s' := step s (LRun c) in
+  c_pc (r_cs s' c) = [IUnsubAll] /\ c_dead (r_cs s' c) = true /\ ~ In c (r_cancel s') /\
+  c_ops (r_cs s' c) = c_ops (r_cs s c) ++ [ODisc] /\ r_reg s' = r_reg s.
+Proof.
+  intros s c Hpc Hc s'. unfold s'. rewrite (defer_step _ _ Hpc Hc). cbn [r_cs r_cancel r_reg]. rewrite upd_same. cbn.
+  repeat split; auto. intro X. apply remove_conn_In in X. tauto.
+Qed.
+
+(** a cancelled session has not returned yet, and accepts nothing more *)
+Theorem C07_cancelled_session : forall buf s c o,
+  reachable buf s -> In c (r_cancel s) ->
+  c_dead (r_cs s c) = false /\ step s (LOp c o) = s.
+Proof.
+  intros buf s c o R Hc. pose proof (inv_cancel s (Inv_reachable buf s R) c Hc) as Hd. split; [assumption|].
+  unfold step. cbn [enabled step_enabled]. apply mem_conn_In in Hc. rewrite Hd, Hc. cbn.
+  destruct (c_pc (r_cs s c)); [reflexivity|]. now rewrite andb_false_r.
+Qed.
+
+(** the reply of an operation in flight is the only thing a cancelled session
+    may give up, and only then *)
+Theorem C07_skip_only_when_cancelled : forall s c,
+  ~ In c (r_cancel s) -> step s (LSkip c) = s.
+Proof.
+  intros s c Hc. unfold step. cbn [enabled step_enabled]. apply mem_conn_false in Hc. rewrite Hc.
+  now destruct (c_pc (r_cs s c)).
+Qed.
+
+(** connection 0 publishes 52 and disconnects while the publish is in flight:
+    the copy still reaches connection 1 (whose reader then reads it), the OK
+    is given up, the session ends, the registry entry (there is none for a
+    pure publisher) stays absent; connection 1 disconnects while its REQ is in
+    flight: the REQ still subscribes, then everything of connection 1 is
+    released *)
+Definition ex_s3 : rstate :=
+  run ex_s0 (ex_tr ++ [LTake c1; LDeliver c1] ++
+             [LOp c0 (OEvent (ex_e 52)); LOp c0 ODisc;                (* cancelled right away *)
+              LRun c0; LVisit c0 c1 []; LRun c0; LRun c0; LRun c0; LRun c0;
+              LSkip c0;                                               (* the OK is given up *)
+              LRun c0; LRun c0;                                       (* ServeNostr returns; UnsubscribeAll *)
+              LTake c1; LDeliver c1]).
+
+Example C07_ex_cancel_in_flight :
+  c_out (r_cs ex_s3 1%nat) = [MEose ex_a; MEose ex_b; MEvent ex_a (ex_e 49) (0%nat, 0%nat); MEvent ex_a (ex_e 52) (0%nat, 1%nat)] /\
+  c_out (r_cs ex_s3 0%nat) = [MOk [49]%N] /\
+  finished ex_s3 0%nat /\ r_cancel ex_s3 = [] /\
+  c_ops (r_cs ex_s3 0%nat) = [OEvent (ex_e 49); OEvent (ex_e 52); ODisc].
+Proof. vm_compute. repeat split. Qed.
+
+Definition ex_s4 : rstate :=
+  run ex_s3 [LOp c1 (OReq [99]%N [empty_filter]); LOp c1 ODisc; LRun c1 (* ISubAdd still runs *)].
+
+Example C07_ex_cancelled_req_still_subscribes :
+  sub_of ex_s4 1%nat [99]%N = Some [empty_filter] /\ r_cancel ex_s4 = [1%nat] /\
+  let s5 := run ex_s4 [LRun c1 (* EOSE handed over *); LRun c1; LRun c1] in
+  reg_get 1%nat (r_reg s5) = None /\ finished s5 1%nat /\ r_cancel s5 = [] /\
+  c_out (r_cs s5 1%nat) = c_out (r_cs ex_s3 1%nat) ++ [MEose [99]%N].
 Proof. vm_compute. repeat split. Qed.
 
 (* ------------------------------------------------------------------ *)
@@ -386,7 +464,7 @@ Theorem C07_det_schedule_runs : forall buf N script,
   script_ok N script ->
   det_history buf N script = model_history buf N (det_schedule buf N script) /\
   conns_below N (det_schedule buf N script) /\ Forall wf_label (det_schedule buf N script) /\
-  solo_sched (r_init buf) (det_schedule buf N script) /\
+  (no_cut script -> solo_sched (r_init buf) (det_schedule buf N script)) /\
   quiescent (run (r_init buf) (det_schedule buf N script)).
 Proof. exact det_schedule_ok. Qed.
 Print Assumptions C07_det_schedule_runs.
@@ -396,11 +474,22 @@ Print Assumptions C07_det_schedule_runs.
     gates, every accepted publication with its own id) the observation the
     model produces is accepted by [det_oracle]. *)
 Theorem C07_model_satisfies_det_oracle : forall buf N script,
-  script_ok N script ->
+  script_ok N script -> no_cut script ->
   uniq_pub_ids (det_history buf N script) ->
   det_oracle (det_history buf N script) = true.
 Proof. exact model_satisfies_det_oracle_script. Qed.
 Print Assumptions C07_model_satisfies_det_oracle.
+
+(** scripts in which a client disconnects right after sending an operation,
+    without waiting for the reply ([SCut], with the reply handed over or given
+    up): the history is not a sequence of non-overlapping operations any
+    more; the timed oracle accepts it *)
+Theorem C07_model_satisfies_timed_oracle_script : forall buf N script,
+  script_ok N script ->
+  uniq_pub_ids (det_history buf N script) ->
+  timed_oracle (det_history buf N script) = true.
+Proof. exact model_satisfies_timed_oracle_script. Qed.
+Print Assumptions C07_model_satisfies_timed_oracle_script.
 
 (* ------------------------------------------------------------------ *)
 (** Non-vacuity of the oracle theorems, and the converse: tampered
@@ -480,3 +569,31 @@ Definition t_closed2 := tamper ex_h2 2%nat (fun l => l ++ [(XEvent ex_a (ex_e 51
 Example C07_ex_exact_clause :
   det_oracle ex_h2 = true /\ timed_oracle t_closed2 = true /\ det_oracle t_closed2 = false.
 Proof. vm_compute. repeat split. Qed.
+
+(** a script with disconnects in flight: connection 1 subscribes, connection 0
+    publishes 49; connection 2 sends a REQ and disconnects at once (its EOSE
+    given up); connection 0 sends 50 and disconnects at once (its OK handed
+    over all the same).  Connection 1 gets both events. *)
+Definition ex_script3 : list sitem :=
+  [SOp c1 (OReq ex_a [empty_filter]); SOp c0 (OEvent (ex_e 49));
+   SCut c2 (OReq ex_a [empty_filter]) true; SCut c0 (OEvent (ex_e 50)) false].
+Definition ex_h3 : history := det_history 2%nat 3%nat ex_script3.
+
+Example C07_ex_cut_history :
+  script_ok 3%nat ex_script3 /\ uniq_pub_ids ex_h3 /\
+  List.map (List.map (fun ms : xmsg * Z => fst ms)) (hi_outs ex_h3) =
+  [[XOk [49]%N true true; XOk [50]%N true true];
+   [XEose ex_a; XEvent ex_a (ex_e 49); XEvent ex_a (ex_e 50)];
+   []] /\
+  List.map (fun o => (h_c o, is_some (h_d o))) (hi_ops ex_h3) =
+  [(1%nat, true); (0%nat, true); (2%nat, false); (2%nat, true); (0%nat, true); (0%nat, true)] /\
+  timed_oracle ex_h3 = true /\
+  (* an operation without reply is excused only by a disconnect of that connection *)
+  replies_ok (tamper ex_h3 1%nat (fun l => skipn 1 l)) = false.
+Proof.
+  split; [|split].
+  - unfold script_ok, ex_script3. repeat (apply Forall_cons; [|]); try apply Forall_nil; cbn; (split; [unfold c0, c1, c2; lia|]);
+      repeat constructor; try discriminate.
+  - unfold uniq_pub_ids. vm_compute. repeat constructor; cbn; intuition discriminate.
+  - vm_compute. repeat split.
+Qed.
